@@ -57,3 +57,20 @@ __CPROVER_ensures(self->m_seq_cnt == other->m_seq_cnt)                          
 __CPROVER_ensures(self->m_event.type == other->m_event.type && self->m_event.payload == other->m_event.payload)   /*@ob C15,C18,C20.copied-deferred-event-keeps-type-and-payload */
 ;
 #endif
+/* ---- state_machine_base(Args&&...): the ROOT machine records itself as root, initialises every (nested) submachine / exit pseudo state
+   once (init_state_visitor, its own unit), and starts from the initial state ids (C03 C07 C15) ---- */
+#if UNIT_BASE_CTOR
+extern const _Bool g_is_root; extern const uint16_t g_init_ids16[NR_CAP]; extern const int g_k; extern int g_inits_all;
+void init_all_states(fsm_t* self)                       /* visit_if<all_recursive, predicate>(init_state_visitor{self}) */
+__CPROVER_requires(g_is_root && g_inits_all == 0 && self->m_root_sm == self)     /*@ob C07,C15.nested-machines-are-initialised-once-by-the-root-after-it-recorded-itself */
+__CPROVER_assigns(g_inits_all)
+__CPROVER_ensures(g_inits_all == 1)
+;
+void base_construct(fsm_t* self)
+__CPROVER_requires(__CPROVER_is_fresh(self, sizeof(*self)) && g_inits_all == 0 && 0 <= g_k && g_k < NR_CAP)
+__CPROVER_assigns(__CPROVER_object_whole(self), g_inits_all)
+__CPROVER_ensures(g_is_root ==> (self->m_root_sm == self && g_inits_all == 1))                            /*@ob C07,C15.a-root-machine-is-its-own-root-and-initialises-its-submachines */
+__CPROVER_ensures(!g_is_root ==> g_inits_all == 0)
+__CPROVER_ensures(self->m_active_state_ids[g_k] == g_init_ids16[g_k])                                     /*@ob C03.a-constructed-machine-starts-from-its-initial-states */
+;
+#endif
